@@ -333,7 +333,7 @@ pub struct Stmt {
 }
 
 const GROUPS: [&str; 6] = ["", "GROUP BY k", "GROUP BY k, g", "GROUP BY upper(k)", "GROUP BY g", "GROUP BY upper(k), g"];
-const FILTERS: [&str; 3] = ["", "WHERE v IS NOT NULL", "WHERE g = 1"];
+const FILTERS: [&str; 5] = ["", "WHERE v IS NOT NULL", "WHERE g = 1", "WHERE b", "WHERE NOT b"];
 const HAVINGS: [&str; 12] = ["", "HAVING COUNT(*) > 1", "HAVING k IS NOT NULL", "HAVING SUM(v) > 2", "HAVING MAX(v) = 3", "HAVING COUNT(v) = 0", "HAVING COUNT(*) > 1 AND SUM(v) > 2", "HAVING SUM(v) > 2 AND COUNT(*) > 1", "HAVING MAX(v) = 3 OR COUNT(v) = 0", "HAVING COUNT(DISTINCT v) = 1", "HAVING COUNT(DISTINCT v) < COUNT(v)", "HAVING PERCENTILE(v, 0.5) > 1"];
 
 fn keys_of(group_by: usize) -> Vec<&'static str> {
@@ -387,7 +387,10 @@ fn reference(st: &Stmt, input: &[&Row]) -> Option<Vec<RefGroup>> {
         .filter(|r| match st.filter {
             0 => true,
             1 => !r["v"].is_null(),
-            _ => matches!(r["g"], RVal::Int(1)),
+            2 => matches!(r["g"], RVal::Int(1)),
+            // a condition that is NULL on a row does not let the row pass
+            3 => matches!(r["b"], RVal::Bool(true)),
+            _ => matches!(r["b"], RVal::Bool(false)),
         })
         .cloned()
         .collect();
@@ -627,7 +630,7 @@ fn statements(thorough: bool) -> Vec<Stmt> {
     let clause_sets: Vec<(usize, usize, usize)> = {
         let mut v = Vec::new();
         for g in 0..GROUPS.len() {
-            for f in 0..FILTERS.len() {
+            for f in 0..3 {
                 for h in 0..HAVINGS.len() {
                     if thorough || (f == 0 && h <= 1) || (h == 0) || (g == 1 && f == 0) || (g == 0 && f == 0 && h >= 6) {
                         v.push((g, f, h));
@@ -685,6 +688,22 @@ fn statements(thorough: bool) -> Vec<Stmt> {
                         if well_formed(&s) {
                             out.push(s);
                         }
+                    }
+                }
+            }
+        }
+    }
+    // a WHERE condition that is a bare / negated BOOLEAN column (NULL on some rows): single items, and pairs with the key
+    for f in [3usize, 4] {
+        for g in if thorough { vec![0usize, 1, 2, 4] } else { vec![0usize, 1] } {
+            for a in 0..n {
+                for items in [vec![a], vec![0, a]] {
+                    if items.len() == 2 && a == 0 {
+                        continue;
+                    }
+                    let s = Stmt { distinct: false, items, group_by: g, filter: f, having: 0 };
+                    if well_formed(&s) {
+                        out.push(s);
                     }
                 }
             }
